@@ -246,6 +246,11 @@ def main(argv=None):
                 extra["replay_search_error"] = traceback.format_exc()
         if found:
             extra["failing_input"] = found
+        elif res.get("tier") == "U":
+            # unbounded tier: a counter-model that does not replay on the real code with real integers may
+            # be an artefact of the uninterpreted pow2/bit_length -- undecided, not a violation
+            undecided.append(f"{res['task']}::{ob['name']} (tier-U counter-model did not replay: {ob.get('model')})")
+            continue
         path = write_replay(prop, res["task"], ob, extra)
         suffix = "" if found else " no-failing-input-found"
         out_lines.append(f"VIOLATION property={prop} replay={path}{suffix}")
